@@ -63,7 +63,12 @@ def block_table(thorough):
           B("BurstTagger<u8>", {"threshold": 0.5}, "bytes", 60, ID, True, kinds=["bytes", "small"]),
           B("QuadratureDemod", {"gain": 1.0}, "small", 60, ID, True),
           B("FastFM", {}, "small", 60, ID, True),
-          B("SinglePoleIirFilter<Float>", {"alpha": 0.5}, "small", 60, ID, True)]
+          B("SinglePoleIirFilter<Float>", {"alpha": 0.5}, "small", 60, ID, True),
+          B("Map<u8>", {}, "bytes", 60, ID, True),
+          B("Map<Float,Complex>", {}, "small", 40, ID, True),
+          B("CmaEqualizer", {"ntaps": 1}, "small", 40, ID),
+          B("CmaEqualizer", {"ntaps": 3}, "small", 41, ID),
+          B("DebugFilter<u8>", {}, "bytes", 30)]
     # hand-written work()
     t += [B("Delay<Big>", {"delay": 2}, "ramp", 9, {"kind": "delay", "arg": 2}, big=True, sched=True),
           B("Delay<Big>", {"delay": 0}, "ramp", 7, {"kind": "delay", "arg": 0}, big=True, sched=True),
@@ -142,6 +147,9 @@ def fn_table(thorough):
     E("XorConst<u8>", {"val": 90}, "bytes", 60, F("xor", val=90), sync=True)
     E("Xor<u8>", {}, "bytes", 60, F("xor", val=0), sync=True, kinds=["bytes", "bytes"])
     E("BinarySlicer", {}, "small", 60, F("slicer"), sync=True)
+    E("Map<u8>", {}, "bytes", 60, F("affinemod", a=3, b=1, m=256), sync=True)
+    E("Map<Float,Complex>", {}, "small", 40, F("negpair"), sync=True)
+    E("DebugFilter<u8>", {}, "bytes", 30, F("debugtext"))
     E("ComplexToMag2", {}, "small", 40, F("mag2"), sync=True)
     E("FloatToComplex", {}, "small", 40, F("f2c"), sync=True, kinds=["small", "small"])
     E("NrziDecode", {}, "bits", 80, F("nrzi"), sync=True)
